@@ -205,8 +205,9 @@ SPECS = {
 
  "C10": {
   "level": "fault_enumeration",
-  "passes": [fsm("^TestC10$", name="stops"), fsm("^TestC10Race$", name="race", race=True, gomaxprocs=4), real("^TestRealShutdown$")],
-  "rule": "[also pass realtcp: Server.Close 0..20 ms after Serve with a real remote listener accepting the dial: every accepted connection must see EOF/RST and the process's socket fd count must return to its baseline] pass stops: 15 connection scripts (inbound passive/active, outbound, outbound with slow dial, a dial completing at the instant connect-retry fires, ordered and simultaneous collision, refused dials, stalled dial incl. connect-retry redial, damped peer incl. end of hold-down, active WriteUpdate callers inbound/outbound, "
+  "passes": [fsm("^TestC10$", name="stops"), fsm("^TestC10Race$", name="race", race=True, gomaxprocs=4), real("^TestRealShutdown$"),
+             real("^TestReal(Sessions|Readd|Collision|Shutdown)$", name="realtcp-race", race=True, thorough_only=True)],
+  "rule": "[thorough also runs the real-TCP session, re-add, collision and shutdown scenarios under the race detector (pass realtcp-race: kernel-timed interleavings instead of bubble scheduling)] [also pass realtcp: Server.Close 0..20 ms after Serve with a real remote listener accepting the dial: every accepted connection must see EOF/RST and the process's socket fd count must return to its baseline] pass stops: 15 connection scripts (inbound passive/active, outbound, outbound with slow dial, a dial completing at the instant connect-retry fires, ordered and simultaneous collision, refused dials, stalled dial incl. connect-retry redial, damped peer incl. end of hold-down, active WriteUpdate callers inbound/outbound, "
           "Active state after an OpenSent TCP failure, remote-closed session, hold-time-0 session). family quiesced: Close, DeletePeer and a failing listener (Serve must return that error and stop every peer as on Close) after every step of every script (settled), several seeds of schedule-point delays, with exact expectations incl. Cease on every open connection whose approved state was OpenSent/OpenConfirm/Established; "
           "family sweep: a dry run records every virtual instant at which anything happened (20 ns fixed delay between dial completion and result hand-off, seeded delays elsewhere); the script is replayed with the stop issued concurrently at each instant t, t+1 ns, t+2..41 ns and a seeded offset < 2 us. "
           "Oracles: stop returns within 1 ms of virtual time (no dependence on protocol timers), Serve returns ErrServerClosed, every connection of the peer closed on corebgp's side at return (accountant), OnClose delivered for an Established session, no callback afterwards (sealed plugin automaton), "
